@@ -1,6 +1,7 @@
 package deploymc
 
 import (
+	"errors"
 	"github.com/nspcc-dev/neo-go/pkg/encoding/bigint"
 	"bytes"
 	"context"
@@ -179,7 +180,8 @@ func runSchedule(t *testing.T, s Schedule, horizon int, dir string) (res RunResu
 					if d.err != nil {
 						if _, planned := restartAt[d.member]; !planned {
 							// a cancelled incarnation returns the context error; anything else is a failure
-							if cd, isCrash := crashCall[d.member]; isCrash && d.inc == 0 {
+							if cd, isCrash := crashCall[d.member]; isCrash && d.inc == 0 && errors.Is(d.err, context.Canceled) {
+								// the planned cancellation at a chain call (any other error before that point is a failure)
 								restartAt[d.member] = res.Rounds + cd.Len
 							} else {
 								res.Violations = append(res.Violations, Violation{"deploy-returned-error", map[string]any{"member": d.member, "n": n}, fmt.Sprintf("member %d: %v", d.member, d.err)})
